@@ -1,12 +1,12 @@
 #!/bin/bash
 # usage: confirm_seed.sh Cxx   -- confirms an agent's seeded change in its scratch worktree /tmp/mut/Cxx (outputs in /tmp/mut/out/Cxx)
-id=$1; WT=/tmp/mut/$id; OUT=/tmp/mut/out/$id
+id=$1; MUT=${MUT:-/tmp/mut}; WT=$MUT/$id; OUT=$MUT/out/$id
 export PYTHONDONTWRITEBYTECODE=1 PYTHONPATH=$WT OPENBLAS_NUM_THREADS=1 OMP_NUM_THREADS=1 MKL_NUM_THREADS=1
 cd $WT || exit 9
 git checkout -q -- . ; git apply $OUT/patch.diff || { echo "RESULT $id patch-does-not-apply"; exit 1; }
-timeout 1800 /venv/bin/python -W ignore $OUT/demo.py > /tmp/mut/confirm_$id.demo_changed.log 2>&1; a=$?
+timeout 1800 /venv/bin/python -W ignore $OUT/demo.py > $MUT/confirm_$id.demo_changed.log 2>&1; a=$?
 git checkout -q -- .
-timeout 1800 /venv/bin/python -W ignore $OUT/demo.py > /tmp/mut/confirm_$id.demo_orig.log 2>&1; b=$?
+timeout 1800 /venv/bin/python -W ignore $OUT/demo.py > $MUT/confirm_$id.demo_orig.log 2>&1; b=$?
 git apply $OUT/patch.diff
-timeout 3000 /venv/bin/python -m pytest -q -p no:cacheprovider --timeout=900 -x > /tmp/mut/confirm_$id.tests.log 2>&1; t=$?
-echo "RESULT $id demo_with_change_exit=$a demo_original_exit=$b tests_exit=$t $(grep -E 'passed|failed' /tmp/mut/confirm_$id.tests.log | tail -1)"
+timeout 3000 /venv/bin/python -m pytest -q -p no:cacheprovider --timeout=900 -x > $MUT/confirm_$id.tests.log 2>&1; t=$?
+echo "RESULT $id demo_with_change_exit=$a demo_original_exit=$b tests_exit=$t $(grep -E 'passed|failed' $MUT/confirm_$id.tests.log | tail -1)"
